@@ -161,14 +161,35 @@ Complete(C, w0, tname, o, sels, rp, vp) ==
                               ELSE IF o.ty # "" THEN o.ty ELSE C.S.types[tname].possible[1]
                     IN  ExecSel(C, ct, sels, rp, vp)
 
+\* What graphql.CollectAllFields(ctx) answers inside the resolver of a field (the API
+\* resolvers use to decide what to preload): "the unique set of all field names requested
+\* regardless of fragment type conditions" - under @skip/@include and the
+\* visited-fragment rule.  Carried in dinfo as records with the reserved label "#cf".
+RECURSIVE AllNamesR(_, _, _)
+AllNamesR(sels, acc, frags) ==
+  IF sels = <<>> THEN acc
+  ELSE LET s    == Head(sels)
+           rest == Tail(sels)
+           inc  == (~s.skip) /\ s.incl
+       IN  IF s.k = "field"
+           THEN AllNamesR(rest, (IF inc THEN [acc EXCEPT !.ns = @ \cup {s.name}] ELSE acc), frags)
+           ELSE IF s.k = "inline"
+           THEN AllNamesR(rest, (IF inc THEN AllNamesR(s.sels, acc, frags) ELSE acc), frags)
+           ELSE IF inc /\ s.name \notin acc.vis
+                THEN AllNamesR(rest, AllNamesR(frags[s.name].sels, [acc EXCEPT !.vis = @ \cup {s.name}], frags), frags)
+                ELSE AllNamesR(rest, acc, frags)
+AllNames(sels, frags) == AllNamesR(sels, [ns |-> {}, vis |-> {}], frags).ns
+CfInfo(rp, sels, frags) == {[p |-> rp, k |-> n, l |-> "#cf"] : n \in AllNames(sels, frags)}
+
 \* The directive chain of a resolver-backed field, outermost first, then the resolver.
 Chain(C, fd, ds, f, rp, vp) ==
   IF ds = <<>>
   THEN LET o == Out(C.plan, rp)
-       IN  IF o.k \in {"err", "valerr"} THEN Fail(rp, "err", TRUE)
-           ELSE IF o.k = "panic" THEN Fail(rp, "panic", TRUE)
-           ELSE LET r == Complete(C, fd.wrap, fd.name, o, f.sels, rp, rp)
-                IN  [r EXCEPT !.pos = @ \cup {rp}]
+           r == IF o.k \in {"err", "valerr"} THEN Fail(rp, "err", TRUE)
+                ELSE IF o.k = "panic" THEN Fail(rp, "panic", TRUE)
+                ELSE LET r0 == Complete(C, fd.wrap, fd.name, o, f.sels, rp, rp)
+                     IN  [r0 EXCEPT !.pos = @ \cup {rp}]
+       IN  [r EXCEPT !.dinfo = @ \cup CfInfo(rp, f.sels, C.frags)]
   ELSE LET key == rp \o "@" \o Head(ds).tag
            how == IF key \in DOMAIN C.dirplan THEN C.dirplan[key] ELSE "pass"
        IN  IF how = "err" THEN Fail(rp, "dir", FALSE)
